@@ -283,6 +283,18 @@ func cmdReplay(args []string) int {
 		fmt.Fprintln(os.Stderr, err)
 		return 2
 	}
+	var probe struct {
+		Property string `json:"property"`
+		Probe    string `json:"probe"`
+	}
+	if json.Unmarshal(b, &probe) == nil && probe.Probe != "" {
+		if why := probeAccepted(probe.Probe); why != "" {
+			fmt.Printf("VIOLATION property=%s replay=%s\n  %q %s\n", probe.Property, args[0], probe.Probe, why)
+			return 1
+		}
+		fmt.Printf("not reproduced: %q is rejected under the default context\n", probe.Probe)
+		return 0
+	}
 	var rf ReplayFile
 	if err := json.Unmarshal(b, &rf); err != nil {
 		fmt.Fprintln(os.Stderr, err)
